@@ -9,12 +9,8 @@ package c01
 
 import (
 	"fmt"
-	"os"
-	"runtime"
-	"runtime/pprof"
 	"sort"
 	"strings"
-	"time"
 
 	"github.com/ohler55/slip"
 
@@ -39,10 +35,14 @@ func init() {
 			"equal those of the independent reference evaluator. A case is non-trivial when it composes at least two form kinds " +
 			"(>= 2 deviations) or, for quote cases, when the quoted datum sits inside another form",
 		Assumptions: []string{
-			"the reference evaluator implements the Common Lisp rules for the core forms (order of evaluation, scoping, multiple values)",
+			"the reference evaluator implements the Common Lisp rules for the core forms (order of evaluation, lexical scoping, multiple values)",
 			"programs are closed, well typed, free of non-local exits (C07), redefinition (C08), lambda-list keywords (C04) and large integers (C05)",
 			"implementation-dependent points are not exercised: closures never capture a dolist/dotimes variable beyond its iteration, " +
-				"dolist/dotimes variables are never assigned, literal data is never modified",
+				"dolist/dotimes variables are never assigned, literal data is never modified, (values ...) is written only as the value of a function body or as the values-form of multiple-value-bind (slip documents that use)",
+			"S2: where Common Lisp reduces a stored or passed-on result to its primary value (init forms of let/let*/do, non-final forms of or, results collected by mapcar) " +
+				"slip may keep the whole values object (its own tests rely on a variable holding one); such outcomes are accepted and counted (accepted:...)",
+			"S2: a quoted datum is compared by structure and type with symbol case folded; an unsuffixed float may be single or double; the ' shorthand inside quoted data is not exercised",
+			"a slip run is cut off after 4x the reference's evaluation count + 2000 function evaluations and reported as runaway",
 		},
 		Enumerate: enumerate,
 		Exec:      exec,
@@ -65,14 +65,14 @@ func plans(tier string) []tierPlan {
 	if tier == engine.Thorough {
 		return []tierPlan{
 			{"all templates at every level, D<=3", genOpts{}, []int{1, 2, 3}},
-			{"root from all templates, lower levels from the spine subset, D=4", genOpts{spineFrom: 2}, []int{4}},
-			{"every level from the deep subset, D=5", genOpts{deepFrom: 1}, []int{5}},
-			{"spines (one filled hole per form, i.e. nesting depth 6) over the deep subset, D=6", genOpts{deepFrom: 1, spine: true}, []int{6}},
+			{"root from all templates, lower levels from the spine subset, D=4", genOpts{rankAt: []int{0, 2}}, []int{4}},
+			{"every level from the deep subset, D=5", genOpts{rankAt: []int{3}}, []int{5}},
+			{"spines (one filled hole per form, i.e. nesting depth 6) over the deepest subset, D=6", genOpts{rankAt: []int{4}, spine: true}, []int{6}},
 		}
 	}
 	return []tierPlan{
 		{"all templates at every level, D<=2", genOpts{}, []int{1, 2}},
-		{"root from all templates, second and third level from the core subset, D=3", genOpts{coreFrom: 2}, []int{3}},
+		{"root from all templates, second and third level from the core subset, D=3", genOpts{rankAt: []int{0, 1}}, []int{3}},
 	}
 }
 
@@ -91,15 +91,15 @@ func bound(tier string) string {
 	for _, pl := range plans(tier) {
 		parts = append(parts, pl.what)
 	}
-	var n [4]int
+	var n [5]int
 	for _, t := range templates {
 		for r := 1; r <= t.rank; r++ {
 			n[r]++
 		}
 	}
-	return fmt.Sprintf("%d templates (subsets: core %d, spine %d, deep %d), nesting depth <= 6, deviations D counted including the root form "+
+	return fmt.Sprintf("%d templates (subsets: core %d, spine %d, deep %d, deepest %d), nesting depth <= 6, deviations D counted including the root form "+
 		"(a deviation = a hole filled with a template or an environment leaf): %s; quote: %d data x %d contexts x 2 notations",
-		len(templates), n[1], n[2], n[3], strings.Join(parts, "; "), len(datums), len(quoteCtxs))
+		len(templates), n[1], n[2], n[3], n[4], strings.Join(parts, "; "), len(datums), len(quoteCtxs))
 }
 
 // ---------------------------------------------------------------- running
@@ -144,6 +144,7 @@ type verdict struct {
 	want     string
 	wantTr   []string
 	got      observation
+	lenient  bool   // accepted only because secondary values kept by slip are ignored (S2)
 	skip     string // reference could not evaluate (budget / generator bug)
 	hits     map[string]int
 	refSteps int
@@ -225,8 +226,29 @@ func judgeRenaming(t *term, prefix string, rename *term) (v verdict) {
 	default:
 		v.ok = true
 	}
+	if !v.ok && v.got.err == nil && strings.Contains(v.text, "(values") {
+		// Rule S2. slip treats a multiple-values object as an ordinary object that can be stored in a variable
+		// and passed on (its own tests keep the result of a two-valued function in a let variable and take it
+		// apart later with nth-value). Where Common Lisp reduces a result to its primary value because it is
+		// stored or passed on - the init form of let/let*/do, a non-final form of or, the results collected by
+		// mapcar - keeping all the values is therefore accepted: the outcome must equal that of the reference
+		// with some subset of those positions keeping values objects. Dropping values, reducing them in a
+		// value-transparent position, or taking the wrong branch is not accepted by any of these.
+		for mask := 1; mask < 1<<len(keepPositions) && !v.ok; mask++ {
+			alt := newRef("", refBudgetSteps)
+			alt.keep = map[string]bool{}
+			for i, pos := range keepPositions {
+				alt.keep[pos] = mask&(1<<i) != 0
+			}
+			if av, aerr := alt.run(p.forms); aerr == "" && showVal(av) == v.got.val && sameTrace(alt.trace, v.got.trace) {
+				v.ok, v.lenient, v.kind = true, true, ""
+			}
+		}
+	}
 	return
 }
+
+var keepPositions = []string{"let-init", "or-argument", "mapcar-result", "do-init-step"}
 
 // slipLimit bounds slip's work on a program by the reference's: the reference counts every evaluation (atoms
 // included), slip's interrupt check only fires on function forms, so a conforming run needs fewer than refSteps.
@@ -348,7 +370,32 @@ func minimise(t *term, prefix string, budget int) (*term, verdict) {
 			if !isTemplate(nodes[i]) {
 				continue
 			}
-			for _, canon := range []string{"lst", "add", "pg1"} {
+			// a form that only carries one inner form (it is needed for the types to fit, or merely sits in
+			// between) is replaced by progn around that inner form
+			if nodes[i].kind != "pg1" && nodes[i].kind != "pg2" {
+				var only *term
+				count := 0
+				for _, k := range nodes[i].kids {
+					if k.kind != "_" {
+						only = k
+						count++
+					}
+				}
+				if count == 1 {
+					for _, wrap := range []*term{{kind: "pg1", kids: []*term{only}}, {kind: "pg2", kids: []*term{only, leafTerm()}}} {
+						c := sites[i](wrap)
+						if v, fails := try(c); fails {
+							cur, curV, have, changed = c, v, true, true
+							break search
+						}
+					}
+				}
+			}
+			if 1 < nodes[i].deviations() {
+				continue
+			}
+			// a leaf form that is only needed as "some list / some integer / some value / nil"
+			for _, canon := range []string{"lst", "add", "pg1", "pg0"} {
 				if nodes[i].kind == canon {
 					break
 				}
@@ -375,35 +422,12 @@ func exec(spec string) (res engine.Result) {
 		res.Outcome = "val=" + o.val + " trace=" + strings.Join(o.trace, ",") + " err=" + o.err.String()
 		return
 	case strings.HasPrefix(spec, "count:"):
-		// count:<coreFrom>:<spineFrom>:<spine 0|1>:<dev> - size of an enumeration (development aid)
-		var cf, sf, df, sp, dev int
-		_, _ = fmt.Sscanf(spec, "count:%d:%d:%d:%d:%d", &cf, &sf, &df, &sp, &dev)
+		// count:<min rank of the root>:<min rank below>:<spine 0|1>:<dev> - size of an enumeration (development aid)
+		var r1, r2, sp, dev int
+		_, _ = fmt.Sscanf(spec, "count:%d:%d:%d:%d", &r1, &r2, &sp, &dev)
 		n := 0
-		newGenerator(genOpts{coreFrom: cf, spineFrom: sf, deepFrom: df, spine: sp == 1}).roots(dev, func(string) { n++ })
+		newGenerator(genOpts{rankAt: []int{r1, r2}, spine: sp == 1}).roots(dev, func(string) { n++ })
 		res.Outcome = fmt.Sprint(n)
-		return
-	case strings.HasPrefix(spec, "mem:"):
-		// mem:<n>:<term> - heap growth over n executions of one term under distinct specs (development aid)
-		var n int
-		var tm string
-		_, _ = fmt.Sscanf(spec, "mem:%d:%s", &n, &tm)
-		var m0, m1 runtime.MemStats
-		runtime.GC()
-		runtime.ReadMemStats(&m0)
-		t, _ := parseTerm(tm)
-		for i := 0; i < n; i++ {
-			judge(t, fmt.Sprintf("c01mem%d", i))
-		}
-		runtime.GC()
-		runtime.ReadMemStats(&m1)
-		if f, err := os.Create("/verif/.build/scratch/C01/heap.pprof"); err == nil {
-			_ = pprof.Lookup("heap").WriteTo(f, 0)
-			f.Close()
-		}
-		res.Outcome = fmt.Sprintf("heap growth %d bytes per run", (int64(m1.HeapAlloc)-int64(m0.HeapAlloc))/int64(n))
-		return
-	case strings.HasPrefix(spec, "bench:"):
-		res.Outcome = bench(spec[6:])
 		return
 	case strings.HasPrefix(spec, "show:"):
 		t, err := parseTerm(spec[5:])
@@ -465,6 +489,9 @@ func exec(spec string) (res engine.Result) {
 	} else {
 		res.Outcome = v.got.val + "|" + clip(v.got.trace)
 	}
+	if v.lenient {
+		res.Hit("accepted:secondary-values-kept-where-the-language-drops-them")
+	}
 	if v.ok {
 		return
 	}
@@ -486,6 +513,7 @@ func exec(spec string) (res engine.Result) {
 //     what remains is judged again (rule S9: a known defect must not blind the
 //     rest of the case); if it still fails it is reduced greedily and reported
 //     as  core=<reduced term> kind=....
+//
 // The verdicts of single templates and of pairs are pure functions of the
 // template names, so they are cached per process.
 var (
@@ -747,50 +775,4 @@ func coreSig(core *term, kind string) string {
 		}
 		n = next
 	}
-}
-
-// bench (development aid): bench:<skip>:<n> executes n cases of the quick tier after skipping skip, timing the phases.
-func bench(arg string) string {
-	var skip, n int
-	_, _ = fmt.Sscanf(arg, "%d:%d", &skip, &n)
-	var specs []string
-	k := 0
-	enumerate(engine.Quick, func(s string) {
-		k++
-		if skip < k && len(specs) < n && k%7 == 0 {
-			specs = append(specs, s)
-		}
-	})
-	var tParse, tInst, tRef, tSlip, tExec time.Duration
-	fails := 0
-	for _, s := range specs {
-		if !strings.HasPrefix(s, "p|") {
-			continue
-		}
-		t0 := time.Now()
-		t, _ := parseTerm(s[2:])
-		valid(t, 'a', scope{})
-		t1 := time.Now()
-		p := instantiate(t, "c01bench")
-		text := p.text()
-		t2 := time.Now()
-		r := newRef("", refBudgetSteps)
-		_, rerr := r.run(p.forms)
-		t3 := time.Now()
-		if rerr == "" {
-			runSlip(text, slipLimit(r.steps))
-		}
-		t4 := time.Now()
-		res := exec(strings.Replace(s, "p|", "p|", 1))
-		t5 := time.Now()
-		if 0 < len(res.Failures) {
-			fails++
-		}
-		tParse += t1.Sub(t0)
-		tInst += t2.Sub(t1)
-		tRef += t3.Sub(t2)
-		tSlip += t4.Sub(t3)
-		tExec += t5.Sub(t4)
-	}
-	return fmt.Sprintf("n=%d fails=%d parse=%v inst=%v ref=%v slip=%v fullexec=%v", len(specs), fails, tParse, tInst, tRef, tSlip, tExec)
 }
